@@ -224,8 +224,11 @@ class Mode(LogMixin):
 
         self._setup_device_control_events()
 
+        # do not forward the queue of the triggering queue event. the starting event has its own queues. sharing
+        # the (already locked) queue with a second dispatcher would block both of them forever.
+        starting_kwargs = {key: value for key, value in kwargs.items() if key != 'queue'}
         self.machine.events.post_queue(event=MODE_STARTING_EVENT_TEMPLATE.format(self.name),
-                                       callback=self._started, **kwargs)
+                                       callback=self._started, **starting_kwargs)
         '''event: mode_(name)_starting
 
         desc: The mode called "name" is starting.
